@@ -77,6 +77,24 @@ AbsTok  == [INST |-> "A:INST", FO |-> "A:FO", ZO |-> "A:ZO", SEQ |-> "A:SEQ"]
 ElimTok == [FO |-> "E:FO", ZO |-> "E:ZO", MM |-> "E:MM", MIX |-> "E:MIX"]
 PTok    == <<"P:0", "P:1", "P:2">>     \* PTok[n + 1]
 
+\* The same requests as the search tools make them: through the MFL feature -> function table
+\* (tools/mfl/feature/*.py, ModelFeatures.convert_to_funcs).  MFLKey[tok] is the table key of request tok
+\* (TRANSITS(m, NODEPOT) is registered as set_transit_compartments(m + 1, keep_depot = FALSE)); the table is built
+\* from a search space that lists several values per category, so that every entry has siblings.
+MFLKey ==
+    ("A:INST" :> "ABSORPTION(INST)") @@ ("A:FO" :> "ABSORPTION(FO)") @@ ("A:ZO" :> "ABSORPTION(ZO)") @@
+    ("A:SEQ" :> "ABSORPTION(SEQ-ZO-FO)") @@
+    ("E:FO" :> "ELIMINATION(FO)") @@ ("E:ZO" :> "ELIMINATION(ZO)") @@ ("E:MM" :> "ELIMINATION(MM)") @@
+    ("E:MIX" :> "ELIMINATION(MIX-FO-MM)") @@
+    ("P:0" :> "PERIPHERALS(0)") @@ ("P:1" :> "PERIPHERALS(1)") @@ ("P:2" :> "PERIPHERALS(2)") @@
+    ("T:0" :> "TRANSITS(0,DEPOT)") @@ ("T:1" :> "TRANSITS(1,DEPOT)") @@ ("T:3" :> "TRANSITS(3,DEPOT)") @@
+    ("T:1N" :> "TRANSITS(0,NODEPOT)") @@ ("T:2N" :> "TRANSITS(1,NODEPOT)") @@ ("T:4N" :> "TRANSITS(3,NODEPOT)") @@
+    ("L:1" :> "LAGTIME(ON)") @@ ("L:0" :> "LAGTIME(OFF)") @@
+    ("M:BASIC" :> "METABOLITE(BASIC)") @@ ("M:PSC" :> "METABOLITE(PSC)") @@
+    ("X:LIN" :> "EFFECTCOMP(LINEAR)")
+MFLActs == DOMAIN MFLKey
+MFLSpace == "ABSORPTION([FO,ZO,SEQ-ZO-FO,INST]);ELIMINATION([FO,ZO,MM,MIX-FO-MM]);PERIPHERALS([0,1,2]);TRANSITS([0,1,3],*);LAGTIME([OFF,ON]);METABOLITE([BASIC,PSC]);EFFECTCOMP([LINEAR,EMAX])"
+
 \* "requesting the same feature again": every request except add/remove one more peripheral
 IdemActs == AllActs \ {"P+", "P-"}
 
@@ -206,6 +224,7 @@ Obl(p, tok, acts) ==
      post |-> Tmpl(p, a),
      free |-> Free(p, a),
      refuse |-> Refuse(p, a),
+     mfl |-> IF tok \in MFLActs THEN MFLKey[tok] ELSE "none",
      idem |-> IdemReq(p, tok),
      inv |-> IF UndoReq(p, tok) /\ Inverse(p, tok) \in acts THEN Inverse(p, tok) ELSE "none"]
 Obls(p, acts) == {Obl(p, tok, acts) : tok \in {x \in acts : Enabled(p, ActDef[x])}}
